@@ -60,10 +60,17 @@ func Topology.Each
   // (its only caller, Agent.route, passes a list of its own; with l == nil the topology's
   // lists themselves would be shuffled in place)
   requires TopoOK(t) && n >= 0 && PeersOK(l) && (forall r string :: has(t.m, r) ==> PeersOK(t.m[r]))
-  modifies everything
+  modifies nothing
+  // step 4: with an exclusion list that names both, only selected peers are handed out
+  ensures result != nil && fresh(result)
+  // (for n == 1, the only use: Agent.route asks for one peer per role)
+  ensures n == 1 ==> PeersOK(result)
+  ensures C18/excluded-peers-never-handed-out: n == 1 && old(l != nil && namesBoth(l)) ==> allSel(result)
   // one round only touches the list being built (and lists allocated in the round): the
   // topology's own lists are left alone
   loop 1 modifies p.L
+  loop 1 invariant n == 1 ==> (forall i int :: 0 <= i && i < len(p.L) ==> p.L[i] != nil)
+  loop 1 invariant C18/selected-so-far: n == 1 && old(l != nil && namesBoth(l)) ==> allSel(p)
 
 func PeerList.Update
   modifies everything
@@ -78,25 +85,50 @@ func PeerList.Filter
   ensures result != nil && fresh(result)
   ensures fresh(result.L)
   ensures PeersOK(result)
+  // "never self-addressed", step 1: if the filter only accepts selected peers (sel: peers that
+  // carry neither of two arbitrary, fixed names), the result holds selected peers only
+  ensures C18/filter-keeps-only-accepted: (forall x *Peer :: x != nil && apply(f, x) ==> sel(x)) ==> (forall k int :: 0 <= k && k < len(result.L) ==> sel(result.L[k]))
   loop 1 invariant fresh(b.L) && (forall k int :: 0 <= k && k < len(b.L) ==> b.L[k] != nil)
   loop 1 invariant PeersOK(l) && l.L == old(l.L)
+  loop 1 invariant C18/accepted-so-far: (forall x *Peer :: x != nil && apply(f, x) ==> sel(x)) ==> (forall k int :: 0 <= k && k < len(b.L) ==> sel(b.L[k]))
+define sel(p) = p != nil && p.Name != theA() && p.Name != theB()
+// step 2: excluding a list that names both leaves selected peers only
+define namesBoth(ex) = (exists j int :: 0 <= j && j < len(ex.L) && ex.L[j].Name == theA()) && (exists j int :: 0 <= j && j < len(ex.L) && ex.L[j].Name == theB())
 func PeerList.Exclude
   props C18
   requires PeersOK(l) && (ex == nil || PeersOK(ex))
   ensures result != nil && PeersOK(result)
   ensures ex != nil ==> fresh(result) && fresh(result.L)
+  ensures C18/excluded-names-are-gone: ex != nil && namesBoth(ex) ==> (forall k int :: 0 <= k && k < len(result.L) ==> sel(result.L[k]))
+// the exclusion predicate: accepts a peer iff no entry of the exclusion list has its name
+func PeerList.Exclude.$1
+  props C18
+  requires p != nil && PeersOK(ex)
+  ensures result == (forall j int :: 0 <= j && j < len(ex.L) ==> ex.L[j].Name != p.Name)
+  loop 1 modifies nothing
+  loop 1 invariant -1 <= rangeindex && rangeindex < len(ex.L) && (forall j int :: 0 <= j && j <= rangeindex ==> ex.L[j].Name != p.Name)
 // ASSUMED (math/rand.Shuffle with a swapping closure): a permutation, so no nil peer appears
 func PeerList.Shuffle
   requires PeersOK(l)
   modifies l.L[*]
   ensures result == l
   assumes PeersOK(l)
+  // (a permutation: a property every element had, every element has)
+  assumes old(allSel(l)) ==> allSel(l)
+define allSel(l) = forall k int :: 0 <= k && k < len(l.L) ==> sel(l.L[k])
+// step 3: taking a head, and appending, keep "selected peers only"
 func PeerList.Take
   props C18
   requires n >= 0
+  ensures C18/take-keeps-selected: result != nil && allSel(l) ==> allSel(result)
+  ensures result != nil && PeersOK(l) ==> PeersOK(result)
+  ensures result != nil ==> len(result.L) == n && fresh(result)
+// (appending a list of at most one peer: what Each does with the one peer it takes per role)
 func PeerList.Append
   props C18
   modifies l.L
+  ensures C18/append-keeps-selected: old(allSel(l)) && (m == nil || (old(len(m.L)) <= 1 && old(allSel(m)))) ==> allSel(l)
+  ensures old(forall i int :: 0 <= i && i < len(l.L) ==> l.L[i] != nil) && (m == nil || (old(len(m.L)) <= 1 && old(PeersOK(m)))) ==> (forall i int :: 0 <= i && i < len(l.L) ==> l.L[i] != nil)
 
 // publishing hands the message to the bus subscribers (ghost bookkeeping of what was published)
 func MessageBus.Publish
@@ -118,12 +150,21 @@ func BatchProcessor.wasProcessed
   modifies everything, encodeCalls, lastEncoded
   ensures C18/duplicate-key-from-the-snapshots-only: encodeCalls == old(encodeCalls) || (encodeCalls == old(encodeCalls) + 1 && istype(lastEncoded, []*protocol.SignedSnapshot) && arrayof(dyn(lastEncoded, []*protocol.SignedSnapshot)) == old(arrayof(b.Snapshots)) && len(dyn(lastEncoded, []*protocol.SignedSnapshot)) == old(len(b.Snapshots)))
 
-// UNVERIFIED (no check claims it yet): route builds a fresh list of non-nil nodes
-// and changes nothing that existed before (Exclude filters into a new list,
-// which is then shuffled and cut)
+// "never self-addressed": no node the message is routed to carries the agent's own name, or
+// the name of the peer it came from (for ANY two names: theA(), theB() are arbitrary)
+func Peer.Node
+  props C18
+  ensures result != nil && fresh(result) && result.Name == p.Name
 func Agent.route
+  props C18
+  requires src != nil && a.Self != nil && a.topology != nil && TopoOK(a.topology) && (forall r string :: has(a.topology.m, r) ==> PeersOK(a.topology.m[r]))
+  modifies nothing
   ensures fresh(result)
   ensures forall i int :: 0 <= i && i < len(result) ==> result[i] != nil
+  ensures C18/never-to-itself-nor-back-to-the-source: old(a.Self.Name) == theA() && old(src.Name) == theB() ==> (forall i int :: 0 <= i && i < len(result) ==> result[i].Name != theA() && result[i].Name != theB())
+  loop 1 modifies nothing
+  loop 1 invariant peers != nil && PeersOK(peers) && -1 <= rangeindex && rangeindex < len(peers.L) && fresh(dst) && (forall i int :: 0 <= i && i < len(dst) ==> dst[i] != nil)
+  loop 1 invariant old(a.Self.Name) == theA() && old(src.Name) == theB() ==> allSel(peers) && (forall i int :: 0 <= i && i < len(dst) ==> dst[i].Name != theA() && dst[i].Name != theB())
 
 immutable Agent.gossip, Agent.log, Agent.topology by NewAgent, NewAgentFromConfig, NewDefaultAgent, SetLogger.$1, Agent.Start
 immutable Topology.m by NewTopology
@@ -132,6 +173,8 @@ immutable Topology.m by NewTopology
 func Agent.Send
   props C18
   requires msg != nil && a.gossip != nil && !isnil(a.log)
+  // (an agent built by its constructor knows itself and has a topology whose lists hold no nil peer)
+  requires a.Self != nil && a.topology != nil && TopoOK(a.topology) && (forall r string :: has(a.topology.m, r) ==> PeersOK(a.topology.m[r]))
   modifies msg.TTL, msg.From, sent
   // a message whose time-to-live is exhausted dies here: nothing is sent, it is left untouched
   ensures C18/exhausted-not-forwarded: old(msg.TTL) <= 0 ==> sent == old(sent) && msg.TTL == old(msg.TTL)
